@@ -81,6 +81,9 @@ SThrowAt(n, x) == [s |-> "throw", x |-> x, nid |-> n]
 SThrow(x) == SThrowAt(0, x)
 STry(b, cv, c, f) == [s |-> "try", b |-> b, cv |-> cv, c |-> c, f |-> f]     \* b, c, f: block statements or NoS
 Prog(body) == [body |-> body]
+\* an arrow function whose body is an expression (`(p) => x`): it means { return x } (ECMA-262 ConciseBody); the extra
+\* field xb only tells the renderer to print the expression form
+XArrow(params, x) == [e |-> "fun", name |-> "", params |-> params, body |-> <<SRet(x)>>, arrow |-> TRUE, xb |-> TRUE]
 
 \* ---------------- completions -----------------------------------------------------------------
 CN(v)     == [c |-> "normal", v |-> v, lab |-> ""]
